@@ -734,9 +734,18 @@ inline Verdict check_case(std::string const &cfg_bytes, std::string const &text,
     static const std::string SENT = "\x01sentinel\x02";
     std::string o3 = SENT;
     bool v3 = xss::validate_and_filter_if_invalid(xb, xe, r, o3, m, rc);
+    // "left untouched" is recognised by a sentinel; a coverage-guided fuzzer finds inputs whose filtered text *equals* the sentinel
+    // (it did: thorough tier, input beginning with the sentinel bytes), so an apparent "untouched" is confirmed with a second one
+    bool untouched = o3 == SENT;
+    if (!v3 && untouched) {
+        static const std::string ALT = "\x03another-sentinel\x04";
+        std::string o4 = ALT;
+        bool v4 = xss::validate_and_filter_if_invalid(xb, xe, r, o4, m, rc);
+        if (v4 == v3 && o4 != ALT) { untouched = false; o3 = o4; }      // the filtered text merely equals the first sentinel
+    }
     C04_CHECK(v3 == v, "api:validate-vs-validate_and_filter", std::string("validate says ") + (v ? "valid" : "invalid") + " but validate_and_filter_if_invalid says the opposite" + ctx);
     if (v3) C04_CHECK(o3 == SENT, "api:valid-input-but-filtered-touched", "documented: filtered remains unchanged for valid input" + ctx);
-    else if (o3 == SENT) {
+    else if (untouched) {
         // only the documented "cannot convert back" corner of non ASCII compatible encodings may leave the target untouched
         C04_CHECK(!c.ascii_compatible() && o.empty(), "api:invalid-input-but-nothing-stored", "validate_and_filter_if_invalid returned false without storing a result" + ctx);
         if (count) counters().n[Counters::out_unconvertible]++;
